@@ -1523,6 +1523,13 @@ func SelectStrategy(n *nfa.NFA, re *syntax.Regexp, literals *literal.Seq, config
 		return UseNFA
 	}
 
+	// The lazy DFA resolves \b / \B one byte late (when the next byte is known); by
+	// then it no longer knows whether ^ / \A held at that position, so `\b^a` never
+	// matches. Same reason as hasWordBoundaryAnchorCombo, but for any NFA size.
+	if hasStartAnchor && hasWordBoundary(re) {
+		return UseNFA
+	}
+
 	// Analyze NFA size and literals
 	nfaSize := n.States()
 	litAnalysis := analyzeLiterals(literals, config)
